@@ -152,7 +152,7 @@ def term_of(c, p):
     words, conflicts, spins = parse_extra(p['extra'])
     res = dv.coq_list([ls_common.zpairs(p['results'].get(t, [])) for t in range(nthr)])
     return '(RC %d%%nat %d%%nat %d%%nat %s %s %s %s %s %d %s)' % (
-        c['n'], spins, c['budget'] + 1,      # one more than the budget: a run that finishes exactly at the budget is 'done'
+        c['n'], spins, ls_common.fuel_of(c['budget'], p['status']),      # a run that finishes exactly at the budget is 'done'
         dv.coq_list([dv.coq_list([op_coq(o) for o in pr]) for pr in c['progs']]),
         dv.coq_list([str(x) for x in c['sched'][:len(p['steps'])]]),      # the run consumed exactly one decision per step
         dv.coq_list([str(t * 32 + site) for t, site in p['steps']]), res, dv.coq_list([dv.zlit(w) for w in words]), p['status'], dv.zlit(conflicts))
